@@ -4,6 +4,7 @@ use crate::codecs::*;
 use crate::gen;
 use crate::model::{CodecId, ALL_CODECS};
 use crate::obs::*;
+use crate::oracle::check_iter_laws;
 use bio_seq::prelude::*;
 use proptest::collection::vec;
 use proptest::prelude::*;
@@ -32,6 +33,11 @@ fn widths_for(case: &Case, bits: usize) -> Vec<usize> {
         }
     }
     w.retain(|x| *x >= 1 && *x <= n + 2);
+    if n > 1500 {
+        // long sequences: only widths whose windows can be compared within a bounded amount of work
+        w.retain(|x| (n.saturating_sub(*x) + 1) * *x <= 3_000_000 || *x + 3 >= n);
+        w.extend([1, 2, 63, 64, 65, 1024, 4096, 4097].iter().copied().filter(|x| *x <= n));
+    }
     w.sort();
     w.dedup();
     w
@@ -107,34 +113,66 @@ fn check<C: Cm>(case: &Case) -> PResult {
     ensure_eq!(ch, exp_chain, format!("chain/{n_}"), "chain()");
     ensure!(donec, format!("iter_terminates/{n_}"), "chain() does not terminate properly");
 
+    // every other way of consuming the iterators agrees with next()
+    check_iter_laws(&|| sl.iter().map(|x| x.to_bits()), codes, &format!("iter_laws/{n_}"), &case.widths)?;
+    check_iter_laws(&|| sl.into_iter().map(|x| x.to_bits()), codes, &format!("into_iter_laws/{n_}"), &case.widths)?;
+    check_iter_laws(&|| sl.rev_iter().map(|x| x.to_bits()), &exp_rev, &format!("rev_iter_laws/{n_}"), &case.widths)?;
+    check_iter_laws(&|| sl.chain(s2).map(|x| x.to_bits()), &exp_chain, &format!("chain_laws/{n_}"), &case.widths)?;
+    if let Some(o) = built.owned() {
+        check_iter_laws(&|| o.into_iter().map(|x| x.to_bits()), codes, &format!("into_iter_seq_laws/{n_}"), &case.widths)?;
+    }
+
     // windows and chunks
     let off = case.s.repr.pre_len() * bits;
     let mut nt = false;
     let mut straddle_item = false;
     for w in widths_for(case, bits) {
-        let exp_win: Vec<&[u8]> = if w <= n { codes.windows(w).collect() } else { vec![] };
+        // which items get their symbols compared: all of them unless that is too much work
+        let pick = |count: usize| -> Vec<usize> {
+            if count * w <= 3_000_000 {
+                (0..count).collect()
+            } else {
+                let mut v: Vec<usize> = vec![0, 1, 2, count / 2, count.saturating_sub(3), count.saturating_sub(2), count - 1];
+                for x in &case.widths {
+                    v.push(scale16(*x, count - 1));
+                }
+                v.retain(|i| *i < count);
+                v.sort();
+                v.dedup();
+                v
+            }
+        };
+        let nwin = if w <= n { n - w + 1 } else { 0 };
         let (got, donew) = no_panic(&format!("windows_panic/{n_}"), &format!("windows({w}) on length {n}"), || {
             let mut it = sl.windows(w);
-            let (v, d) = drain(&mut it, exp_win.len());
-            (v.iter().map(|x| (x.len(), codes_of(x))).collect::<Vec<_>>(), d)
+            drain(&mut it, nwin)
         })?;
-        ensure_eq!(got.len(), exp_win.len(), format!("windows_count/{n_}"), "number of windows({w}) of a length-{n} sequence");
+        ensure_eq!(got.len(), nwin, format!("windows_count/{n_}"), "number of windows({w}) of a length-{n} sequence");
         ensure!(donew, format!("iter_terminates/{n_}"), "windows({w}) does not terminate properly on length {n}");
-        for (i, (l, c)) in got.iter().enumerate() {
-            ensure_eq!(*l, w, format!("windows_item_len/{n_}"), "length of window {i} of windows({w})");
-            ensure_eq!(&c[..], exp_win[i], format!("windows_item/{n_}"), "window {i} of windows({w}) on length {n}");
+        for (i, x) in got.iter().enumerate() {
+            ensure_eq!(x.len(), w, format!("windows_item_len/{n_}"), "length of window {i} of windows({w})");
         }
-        let exp_chunks: Vec<&[u8]> = codes.chunks_exact(w).collect();
+        for i in pick(nwin) {
+            ensure_eq!(&codes_of(got[i])[..], &codes[i..i + w], format!("windows_item/{n_}"), "window {i} of windows({w}) on length {n}");
+        }
+        let nch = n / w;
         let (gotc, donech) = no_panic(&format!("chunks_panic/{n_}"), &format!("chunks({w}) on length {n}"), || {
             let mut it = sl.chunks(w);
-            let (v, d) = drain(&mut it, exp_chunks.len());
-            (v.iter().map(|x| (x.len(), codes_of(x))).collect::<Vec<_>>(), d)
+            drain(&mut it, nch)
         })?;
-        ensure_eq!(gotc.len(), exp_chunks.len(), format!("chunks_count/{n_}"), "number of chunks({w}) of a length-{n} sequence");
+        ensure_eq!(gotc.len(), nch, format!("chunks_count/{n_}"), "number of chunks({w}) of a length-{n} sequence");
         ensure!(donech, format!("iter_terminates/{n_}"), "chunks({w}) does not terminate properly on length {n}");
-        for (i, (l, c)) in gotc.iter().enumerate() {
-            ensure_eq!(*l, w, format!("chunks_item_len/{n_}"), "length of chunk {i} of chunks({w})");
-            ensure_eq!(&c[..], exp_chunks[i], format!("chunks_item/{n_}"), "chunk {i} of chunks({w}) on length {n}");
+        for (i, x) in gotc.iter().enumerate() {
+            ensure_eq!(x.len(), w, format!("chunks_item_len/{n_}"), "length of chunk {i} of chunks({w})");
+            ensure_eq!(&codes_of(x)[..], &codes[i * w..(i + 1) * w], format!("chunks_item/{n_}"), "chunk {i} of chunks({w}) on length {n}");
+        }
+        // the other consumption forms (nth, skip, step_by, count, last, size_hint) on two widths per case
+        let law_widths = [1 + case.widths.first().copied().unwrap_or(2) as usize % (n + 1), 1 + case.widths.get(1).copied().unwrap_or(0) as usize % 7];
+        if nwin * w <= 6000 && law_widths.contains(&w) {
+            let expv: Vec<Vec<u8>> = codes.windows(w).map(|x| x.to_vec()).collect();
+            check_iter_laws(&|| sl.windows(w).map(|x| codes_of(x)), &expv, &format!("windows_laws/{n_}"), &case.widths)?;
+            let expc: Vec<Vec<u8>> = codes.chunks_exact(w).map(|x| x.to_vec()).collect();
+            check_iter_laws(&|| sl.chunks(w).map(|x| codes_of(x)), &expc, &format!("chunks_laws/{n_}"), &case.widths)?;
         }
         if w >= 2 && n >= w + 1 {
             let item_straddles = (0..=n - w).any(|i| {
@@ -179,6 +217,13 @@ pub fn run(ctx: &mut Ctx) {
     for id in ALL_CODECS {
         let cases = ctx.cases(1500, 10);
         ctx.forall(&format!("iters/{}", id.name()), cases, strat(id, max), dispatch);
+    }
+    // long sequences (thresholds of fast paths, many words)
+    for id in ALL_CODECS {
+        let th = ctx.thorough();
+        let cases = ctx.cases(5, 8);
+        let st = (gen::seq_spec_long(id, th), gen::seq_spec(id, 20), vec(any::<u16>(), 0..4)).prop_map(move |(s, second, widths)| Case { codec: id, s, second, widths });
+        ctx.forall(&format!("iters_long/{}", id.name()), cases, st, dispatch);
     }
     // bounded-exhaustive: every window (offset, length <= 24 so all widths are walked) of a fixed parent
     for id in ALL_CODECS {
